@@ -6,7 +6,7 @@ import os
 import re
 
 from ..core import (AnalysisError, assigned_targets, body_nodes, call_name, decorators, dotted,
-                    key_text, kwarg, params, param_defaults, stmts_of, unparse)
+                    key_text, kwarg, params, param_defaults, parent, stmts_of, unparse)
 from ..own import FuncInfo, Own
 from ..pyx import load_pyx
 
@@ -189,6 +189,44 @@ def check_pairs(prog, rep):
             rep.violation('PAIR-flags', m, q, 'flag-constants:' + repl,
                           'the twins state different sortedness claims: python %s vs compiled %s' %
                           (cf, cg), f.lineno)
+        # ---- which operand's sortedness claim is consulted (reads of P._qdata_sorted)
+        def flag_reads(fn):
+            out = {}
+            for n in ast.walk(fn):
+                if isinstance(n, ast.Attribute) and n.attr == '_qdata_sorted' and isinstance(
+                        n.ctx, ast.Load) and isinstance(n.value, ast.Name):
+                    out[n.value.id] = out.get(n.value.id, 0) + 1
+            return out
+        rf_, rg_ = flag_reads(f), flag_reads(g)
+        rep.instance('PAIR-flag-reads', {'pair': repl, 'python': rf_, 'pyx': rg_})
+        if set(rf_) != set(rg_):
+            rep.violation('PAIR-flag-reads', m, q, 'flag-reads:' + repl,
+                          'the twins consult the sortedness claim of different operands: python '
+                          'reads %s, compiled reads %s: one of them sorts (or skips sorting) the '
+                          'wrong block list' % (rf_, rg_), f.lineno)
+        # ---- a sided block `if not P._qdata_sorted:` only re-orders P's own block list
+        for fn, mod_ in ((f, m), (g, pyx)):
+            for s0 in ast.walk(fn):
+                if isinstance(s0, ast.If):
+                    t = unparse(s0.test)
+                    mm = re.fullmatch(r'not (\w+)\._qdata_sorted', t)
+                    if not mm:
+                        continue
+                    P = mm.group(1)
+                    sided = set()
+                    for b0 in ast.walk(s0):
+                        if isinstance(b0, ast.Name) and isinstance(b0.ctx, ast.Store):
+                            m2 = re.match(r'^([ab])_', b0.id)
+                            if m2:
+                                sided.add(m2.group(1))
+                    rep.instance('PAIR-sided-block', {'function': fn.name, 'test': t,
+                                                      'writes': sorted(sided)})
+                    if sided and sided != {P}:
+                        rep.violation('PAIR-sided-block', mod_, fn.name,
+                                      'sided-block:%s:%s' % (P, ''.join(sorted(sided))),
+                                      'under `%s` the block list of `%s` is re-sorted: the test '
+                                      'consults the wrong operand' %
+                                      (t, '/'.join(sorted(sided))), s0.lineno)
         # ---- raised classes
         rep.instance('PAIR-raises', {'pair': repl, 'python': sorted(rf), 'pyx': sorted(rg)})
         if rf != rg and not _raise_benign(repl, rf, rg):
@@ -280,6 +318,59 @@ def _written_params(own, f):
     return out
 
 
+def check_normalised_qtotal(prog, rep):
+    """a local bound to raw arithmetic on total charges is reduced (make_valid) before it is
+    used as a charge (lookup key, argument, comparison)"""
+    pyx = load_pyx(prog)
+    for mod_, names in ((prog.module(NPC), ['_tensordot_worker', '_inner_worker', 'tensordot',
+                                            'outer']),
+                        (pyx, ['_tensordot_worker', '_inner_worker'])):
+        for qn in names:
+            if not mod_.has_func(qn):
+                continue
+            fn = mod_.func(qn)
+            for st in stmts_of(fn):
+                if not (isinstance(st, ast.Assign) and isinstance(st.targets[0], ast.Name)):
+                    continue
+                v = st.value
+                raw = isinstance(v, (ast.BinOp, ast.IfExp)) and '.qtotal' in unparse(v) and \
+                    'make_valid' not in unparse(v)
+                if not raw:
+                    continue
+                name = st.targets[0].id
+                rep.instance('PAIR-normalised', {'function': qn, 'module': mod_.relpath,
+                                                 'raw': key_text(st)})
+                bad = None
+                for u in body_nodes(fn):
+                    if isinstance(u, ast.Name) and u.id == name and isinstance(u.ctx, ast.Load) \
+                            and u.lineno > st.lineno:
+                        p = parent(u)
+                        okuse = False
+                        while p is not None and not isinstance(p, ast.stmt):
+                            if isinstance(p, ast.Call) and call_name(p) in (
+                                    'make_valid', '_make_valid_charges_1D',
+                                    '_make_valid_charges_2D', 'Array', 'zeros'):
+                                okuse = True
+                            p = parent(p)
+                        if okuse:
+                            # normalised (in place for the C helper) at/before first use
+                            break
+                        bad = u
+                        break
+                if bad is not None:
+                    rep.violation('PAIR-normalised', mod_, qn, 'raw-qtotal:' + name,
+                                  '`%s` is arithmetic on total charges that is used (`%s`) before '
+                                  'being reduced with make_valid: for Z_N charges whose sum wraps '
+                                  'around, charge lookups miss and blocks are silently dropped' %
+                                  (key_text(st), key_text(parent_stmt(bad))[:60]), st.lineno)
+
+
+def parent_stmt(n):
+    while n is not None and not isinstance(n, ast.stmt):
+        n = parent(n)
+    return n
+
+
 def check_precondition_delegation(prog, rep):
     """cases the compiled worker does not handle must be handled by the python caller first"""
     m = prog.module(NPC)
@@ -363,6 +454,7 @@ def run(prog, rep, tier):
     from .c02 import check_flag_q
     check_flag_q(prog, rep, mods=[load_pyx(prog)])
     check_precondition_delegation(prog, rep)
+    check_normalised_qtotal(prog, rep)
     check_stale_extension(prog, rep)
     check_decorator(prog, rep)
     rep.floor('PAIR-exists', 16)
